@@ -245,3 +245,134 @@ def r9_size_line_guard(ctx, R9):
         ok = none is not None and read == none
         ctx.ob(R9, uc.qual, f"a new size line is read exactly when the counter is None (counter None={none}, line read={read})", ok,
                "" if ok else "a size line is read in the middle of a chunk (payload bytes parsed as a size), or not read when a new chunk starts", witness=r.witness(), node=uc.node)
+
+
+def _call_args(e):
+    return [a for a in e[2:] if isinstance(a, str)]
+
+
+def _ctor_fields(m, q):
+    """positional parameter names of a repo class's constructor (NamedTuple / dataclass fields or __init__ parameters)"""
+    ci = m.classes.get(q)
+    if ci is None:
+        return []
+    init = m.find_method(q, "__init__")
+    if init is not None and init.qual.startswith("urllib3."):
+        return init.params()
+    return [n.target.id for n in ci.node.body if isinstance(n, ast.AnnAssign) and isinstance(n.target, ast.Name)]
+
+
+def r7_preload(ctx, R7):
+    """preloading and .data go through read(): decided on the rows of the constructor and of the property"""
+    m = ctx.model
+    init = m.method(HR, "__init__")
+    rule = GenRule(ctx, init.module, inline=_inl(m, init, drop=("_init_length", "_init_decoder")))
+    rows = [r for r in effect_rows(ctx, init, rule, HR, budget=600000) if r.returns]
+    n = nread = 0
+    seen = set()
+    for r in rows:
+        bodies = [e[3] for e in r.events("store") if e[1] == "self" and e[2] == "_body" and e[3] != "None"]
+        pre = r.truth("p:preload_content")
+        k = (tuple(bodies), pre)
+        if k in seen:
+            continue
+        seen.add(k)
+        for b in bodies:
+            n += 1
+            op, _ = destruct(b)
+            given = b == "p:" + init.params()[0]  # bytes/str handed in by the caller: not network data
+            ok = op == "self.read" or given
+            if op == "self.read":
+                nread += 1
+            ctx.ob(R7, init.qual, f"a body stored at construction is the caller's own bytes or comes from read() [{b[:60]}]", ok,
+                   "" if ok else f"the preloaded body is `{b}`: it bypasses read(), so a truncated preloaded body is not detected like a streamed one", witness=r.witness(), node=init.node)
+        if pre is False:
+            reads = [e for e in r.events("call") if e[1] == "self.read"]
+            ctx.ob(R7, init.qual, "nothing is read at construction unless preload_content is set", not reads, str(reads), witness=r.witness(), node=init.node)
+    ctx.sites(R7, nread, 1, "rows of the constructor that preload the body through read()")
+    dp = m.classes[HR].methods.get("data")
+    if dp is None:
+        raise AnalysisError("HTTPResponse.data not found")
+    drows = [r for r in effect_rows(ctx, dp, GenRule(ctx, dp.module, inline=_inl(m, dp)), HR) if r.returns]
+    nread = 0
+    for r in drows:
+        t = r.out[len("return:"):]
+        op, args = destruct(t)
+        if op == "self.read":
+            nread += 1
+            ok = "cache_content=True" in args
+            ctx.ob(R7, dp.qual, ".data reads through read(cache_content=True)", ok, t, witness=r.witness(), node=dp.node)
+        else:
+            ok = t in ("self._body", "None") or r.truth("self._body") is True
+            ctx.ob(R7, dp.qual, f".data otherwise returns the cached body or nothing [{t[:50]}]", ok, t, witness=r.witness(), node=dp.node)
+    ctx.sites(R7, nread, 1, "rows of .data that read the body")
+
+
+def r8_enforcement_chain(ctx, R8):
+    """the enforce_content_length option is carried unchanged from _make_request to the response object (rows of each hop)"""
+    m = ctx.model
+    CP, CN = "urllib3.connectionpool", "urllib3.connection"
+    OPT = "enforce_content_length"
+    POPT = f"p:{OPT}"
+    from ..rows import bind
+    # hop 1: _make_request -> conn.request
+    mr = m.method(f"{CP}.HTTPConnectionPool", "_make_request")
+    rq = m.method(f"{CN}.HTTPConnection", "request")
+    conn_p = "p:" + mr.params()[0]
+    rows = effect_rows(ctx, mr, GenRule(ctx, mr.module, inline=_inl(m, mr)), mr.clsq, budget=1500000)
+    seen, n = set(), 0
+    for r in rows:
+        for e in r.events("call"):
+            if e[1] == f"{conn_p}.request":
+                b = bind(rq.params(), _call_args(e))
+                k = b.get(OPT)
+                if k in seen:
+                    continue
+                seen.add(k)
+                n += 1
+                ctx.ob(R8, mr.qual, f"_make_request forwards {OPT} to the connection's request() [{k}]", k == POPT,
+                       "" if k == POPT else f"request() is called with {OPT}={k}: the caller's setting is lost (an unset argument falls back to the default)", witness=r.witness(), node=mr.node)
+    ctx.sites(R8, n, 1, "request() calls in _make_request")
+    # hop 2: request() -> the stored response options
+    from .reqrows import request_rows
+    fi, rrows = request_rows(ctx)
+    seen, n = set(), 0
+    for rr in rrows:
+        r = getattr(rr, "r", rr)
+        for e in r.events("store"):
+            if e[1] == "self" and e[2] == "_response_options" and e[3] != "None":
+                if e[3] in seen:
+                    continue
+                seen.add(e[3])
+                n += 1
+                op, args = destruct(e[3])
+                q = op[4:] if op and op.startswith("new:") else op
+                fields = _ctor_fields(m, m.resolve_local(fi.module, q) or "") if q else []
+                k = bind(fields, list(args)).get(OPT) if op else None
+                ok = k == "p:" + OPT
+                ctx.ob(R8, fi.qual, f"request() stores {OPT} in the response options", ok, "" if ok else f"stored options: {e[3][:200]}", witness=r.witness(), node=fi.node)
+    ctx.sites(R8, n, 1, "stores of the response options in request()")
+    # hop 3: getresponse() -> HTTPResponse(...)
+    gr = m.method(f"{CN}.HTTPConnection", "getresponse")
+    rows = [r for r in effect_rows(ctx, gr, GenRule(ctx, gr.module, inline=_inl(m, gr)), gr.clsq, budget=600000) if r.returns]
+    hinit = m.method(HR, "__init__")
+    seen, n = set(), 0
+    for r in rows:
+        t = r.out[len("return:"):]
+        for sub in set(subterms(t)):
+            op, args = destruct(sub)
+            if op == "new:HTTPResponse":
+                k = bind(hinit.params(), list(args)).get(OPT)
+                if k in seen:
+                    continue
+                seen.add(k)
+                n += 1
+                ok = k == f"self._response_options.{OPT}"
+                ctx.ob(R8, gr.qual, "getresponse() builds the response with the stored option", ok, "" if ok else f"{OPT}={k}", witness=r.witness(), node=gr.node)
+    ctx.sites(R8, n, 1, "HTTPResponse constructions in getresponse()")
+    # hop 4: the response keeps it
+    rule = GenRule(ctx, hinit.module, inline=_inl(m, hinit, drop=("_init_length", "_init_decoder")))
+    rows = [r for r in effect_rows(ctx, hinit, rule, HR, budget=600000) if r.returns]
+    vals = {tuple(e[3] for e in r.events("store") if e[1] == "self" and e[2] == OPT) for r in rows}
+    ok = vals == {(POPT,)}
+    ctx.ob(R8, hinit.qual, "the response keeps the option it was given", ok, "" if ok else f"stores of self.{OPT} per path: {sorted(vals)}", node=hinit.node)
